@@ -405,8 +405,19 @@ _CMP = {'==': lambda a, b: a == b, '!=': lambda a, b: a != b, '<': lambda a, b: 
         '<=': lambda a, b: a <= b, '>=': lambda a, b: a >= b}
 
 
+def is_addr(v):
+    """('&', key): the address of the abstract object of a tracked memory key (`&fd->handler_in` kept in a local, in an
+    element of a local table, passed through a helper): non-NULL, equal to the address of the same key only"""
+    return isinstance(v, tuple) and len(v) == 2 and v[0] == '&'
+
+
 def binop(op, a, b):
-    """value of `a op b` over ints / NZ / None."""
+    """value of `a op b` over ints / NZ / addresses of tracked keys / None."""
+    if is_addr(a) or is_addr(b):
+        if is_addr(a) and is_addr(b) and op in ('==', '!='):
+            return int((a == b) == (op == '=='))
+        a = NZ if is_addr(a) else a
+        b = NZ if is_addr(b) else b
     if isinstance(a, int) and isinstance(b, int):
         if op in _ARITH:
             v = _ARITH[op](a, b)
@@ -564,6 +575,9 @@ class AbsInt:
         k = x.get('k')
         if k == 'var' and x.get('vk') in ('local', 'param'):
             return ('v', x['name'])
+        if k == 'deref' and s is not None:
+            p = self.ev(x.get('e'), s)          # `*p = v` with p known to hold the address of a tracked field
+            return p[1] if is_addr(p) else None
         if k == 'index' and s is not None:
             # element of a local array under a decided subscript (a small table filled at run time and walked by a counter)
             name = self._local_array(x)
@@ -571,7 +585,8 @@ class AbsInt:
                 iv = self.ev(x.get('idx'), s)
                 if isinstance(iv, int) and 0 <= iv < 64:
                     return ('l', name, (('#', iv),))
-            return None
+                return None
+            return self._local_elem_path(x, s)
         if k == 'member':
             if self.mem_key:
                 mk = self.mem_key(x)
@@ -580,7 +595,32 @@ class AbsInt:
             lp = local_path(x)
             if lp:
                 return ('l',) + lp
+            if s is not None and not x.get('arrow'):
+                return self._local_elem_path(x, s)
         return None
+
+    def _local_elem_path(self, x, s):
+        """key of `t[i].f` / `t[i].a[j]`: a part of a local table of records under decided subscripts, or None"""
+        steps = []
+        while True:
+            while isinstance(x, dict) and x.get('k') in ('cast', 'load', 'stmtexpr') and 'e' in x:
+                x = x['e']
+            if not isinstance(x, dict):
+                return None
+            k = x.get('k')
+            if k == 'member' and not x.get('arrow'):
+                steps.append((x.get('record'), x['field']))
+                x = x['base']
+            elif k == 'index' and 'bound' in x:
+                iv = self.ev(x.get('idx'), s)
+                if not (isinstance(iv, int) and 0 <= iv < 64):
+                    return None
+                steps.append(('#', iv))
+                x = x['base']
+            elif k == 'var' and x.get('vk') == 'local' and steps:
+                return ('l', x['name'], tuple(reversed(steps)))
+            else:
+                return None
 
     def ev(self, e, s):
         if not isinstance(e, dict):
@@ -601,13 +641,24 @@ class AbsInt:
             if vk in ('local', 'param'):
                 return s.get(('v', e['name']))
             return None
-        if k in ('str', 'addr'):
+        if k == 'str':
+            return NZ
+        if k == 'addr':
+            # the address of a tracked memory field is a value of its own: what is read / called / stored through it is the field
+            x = peel(e.get('e'))
+            if self.mem_key and isinstance(x, dict) and x.get('k') == 'member':
+                mk = self.mem_key(x)
+                if mk is not None:
+                    return ('&', mk)
             return NZ
         if k == 'deref':
             x = peel(e)
-            return self.ev(x, s) if x is not e else None
+            if x is not e:
+                return self.ev(x, s)
+            p = self.ev(e.get('e'), s)
+            return s.get(p[1]) if is_addr(p) else None
         if k == 'member':
-            key = self.key_of(e)
+            key = self.key_of(e, s)
             if key is not None:
                 return s.get(key)
             return self._const_read(e, s) if self.consts else None
@@ -726,6 +777,12 @@ class AbsInt:
                 s = dict(s)
                 self._kill_local(s, self._local_array(l))       # element of a local array under an undecided subscript
                 return [s]
+            if key is None and isinstance(l, dict) and l.get('k') == 'member' and not l.get('arrow'):
+                r_ = lvalue_root(l)
+                if r_ is not None and r_.get('vk') == 'local':
+                    s = dict(s)
+                    self._kill_local(s, r_['name'])             # field of a record of a local table, subscript undecided
+                    return [s]
             if isinstance(l, dict) and l.get('k') == 'var' and op == '=':
                 s = dict(s)
                 for k2 in [k for k in s if k[0] == 'l' and k[1] == l['name'] and k not in self.pinned]:
@@ -800,7 +857,7 @@ class AbsInt:
     def _cmp_known(self, cur, op, rv):
         if isinstance(cur, int) and isinstance(rv, int) and op in _CMP:
             return _CMP[op](cur, rv)
-        if cur == NZ and isinstance(rv, int) and rv == 0 and op in ('==', '!='):
+        if (cur == NZ or is_addr(cur)) and isinstance(rv, int) and rv == 0 and op in ('==', '!='):
             return op == '!='
         return None
 
